@@ -27,8 +27,14 @@
 use std::cmp::{max, min};
 use std::io::Write;
 use std::path::PathBuf;
+#[cfg(not(yamaquasi_verif))]
 use std::sync::atomic::{AtomicBool, AtomicUsize, Ordering};
+#[cfg(yamaquasi_verif)]
+use simsync::sync::atomic::{AtomicBool, AtomicUsize, Ordering};
+#[cfg(not(yamaquasi_verif))]
 use std::sync::RwLock;
+#[cfg(yamaquasi_verif)]
+use simsync::sync::RwLock;
 
 use num_traits::ToPrimitive;
 use rayon::prelude::*;
